@@ -9,11 +9,15 @@ ASSUME = [
     "field-query filter with its nested lookup for the query's own type, publish; copy-on-write map for heap types), in the production "
     "variant (unsynchronised publish) and the race-build variant (sync.RWMutex with writer preference); TLC proves OwnProgram, SlotOwner, "
     "LockSane, NoLockLeak and deadlock freedom for 2 goroutines x 2 calls and 3 goroutines x 1 call on both sides, termination under weak "
-    "fairness, and FINDS the deviations FilterUnderReadLock (the race build before fix 371b1d0: deadlock), SharedSlot and PublishBeforeCompile",
+    "fairness, and FINDS the deviations FilterUnderReadLock (the race build before fix 371b1d0: deadlock), SharedSlot, PublishBeforeCompile "
+    "and TwoWordSlot (the production decoder table before fix e3c7411: a two-word interface value stored non-atomically)",
     "binding S: every behaviour of GenSpec (the interleavings a scheduler acting at the hook points can produce) is replayed with a "
     "cooperative scheduler on the verif hooks, on types never used before in the process, in the production build (norace behaviours) and "
     "the -race build (race behaviours); every call must return what it returns alone; the goroutine must be found at the hook the "
     "behaviour predicts (in-step count reported); everything must return once the hooks are opened",
+    "binding B: for every generated family, 4-8 goroutines spinning on a flag use each of its 12 cold types for the first time at the "
+    "same instant (decode, then encode) - aimed at the few instructions of an unsynchronised publish (the torn two-word slot of the "
+    "decoder table before fix e3c7411 shows up about once per 10^5 bursts)",
     "binding R: the Go scheduler interleaves 2..64 goroutines x ~60 operations (Marshal*, Unmarshal*, Encoder, Decoder, Valid, Compact, "
     "Indent, HTMLEscape, shared FieldQuery, shared Path) over cold generated types, cold heap types and shared values at GOMAXPROCS "
     "1/2/4/16; results are compared with those computed before the goroutines start; the -race build's reports are collected and "
@@ -59,7 +63,8 @@ def spec_checks(scratch, tier):
     devs = []
     for cfg, want in (("TypeCache_dev_deadlock.cfg", "Deadlock reached"), ("TypeCache_dev_shared_race.cfg", "Invariant OwnProgram is violated"),
                       ("TypeCache_dev_half_norace.cfg", "Invariant OwnProgram is violated"),
-                      ("TypeCache_dev_half_race.cfg", "Invariant OwnProgram is violated")):
+                      ("TypeCache_dev_half_race.cfg", "Invariant OwnProgram is violated"),
+                      ("TypeCache_dev_twoword.cfg", "Invariant OwnProgram is violated")):
         d = vlib.run_tlc(scratch, "TypeCache", cfg, workers=2, timeout=300)
         if not any(want in e for e in d.errors):
             raise vlib.Infra("%s did not produce its counterexample (%s): %s" % (cfg, want, d.errors[:3]))
@@ -206,6 +211,13 @@ def run(tier, scratch, record=False):
                              total_timeout=3000 if tier == "thorough" else 900, env=env)
         merge(out, o)
         out.counters["rounds-" + variant] = rounds
+        # part B: simultaneous first use of every cold type
+        per_shard = (0 if variant == "norace" else 12) if tier == "quick" else (0 if variant == "norace" else 60)
+        job = dict(prop=PROP, tier=tier, seed=vlib.seed(), params=dict(mode="burst", variant=variant, rounds=per_shard))
+        o = vlib.run_workers(scratch, binary, RUNNER, job, shards=16, case_timeout=120,
+                             total_timeout=3000 if tier == "thorough" else 900, env=env)
+        out.counters["bursts-" + variant] = o.counters.get("calls", 0)
+        merge(out, o)
     nrace = parse_race_logs(race_prefix, out)
     instep, desync = out.counters.get("in-step-with-model", 0), out.counters.get("desync", 0)
     if instep + desync == 0 or desync > 0.2 * (instep + desync):
@@ -215,10 +227,11 @@ def run(tier, scratch, record=False):
         rule="part S: %d (production) + %d (race build) distinct behaviours of TypeCache.tla's GenSpec (exhaustive: 2 goroutines x 1 call "
              "on the encoder side incl. field-query calls and the query type cold/warm, 2 goroutines x 2 calls on the decoder side%s; "
              "simulated: 2x2 and 3x1, 3x2 configurations) replayed at the hook points on cold types; part R: %d + %d rounds (2..64 goroutines, "
-             "GOMAXPROCS 1/2/4/16, ~60 operations over 6 cold families + cold heap types + shared values / query / paths); race reports "
-             "collected: %d; non-trivial = distinct schedules + rounds" % (
+             "GOMAXPROCS 1/2/4/16, ~60 operations over 6 cold families + cold heap types + shared values / query / paths); part B: "
+             "simultaneous first use of every cold type of the catalogue (%d + %d calls); race reports "
+             "collected: %d; non-trivial = distinct schedules + rounds + families" % (
                  nsched["norace"], nsched["race"], ", every 8th" if tier == "quick" else "", out.counters.get("rounds-norace", 0),
-                 out.counters.get("rounds-race", 0), nrace),
+                 out.counters.get("rounds-race", 0), out.counters.get("bursts-norace", 0), out.counters.get("bursts-race", 0), nrace),
         exhaustive=False, traces_validated_against_impl=instep + desync, schedules_in_step_with_model=instep, schedules_desynchronised=desync,
         race_reports=nrace, counters={k: v for k, v in sorted(out.counters.items()) if k != "calls"})
     f = vlib.Findings(PROP)
